@@ -586,7 +586,11 @@ def monitorC20 (script : List Cmd) (iters : List Iter) (d : Nat) : Option String
       let allOver := ds.all fun x => x.k ≤ k && decide (x.t + 1000 * x.r.ttl + 1000 < t)
       -- timers of retransmissions that a stop removed stay in the heap until their time (at
       -- most one hour later): the timer clause is judged only an hour after the last command
-      let lastCall := (calls.map fun ((_, k') : Cmd × Nat) => (iters.toArray[k']?.map (·.now)).getD 0).foldl max 0
+      -- (metrics readings arm nothing: they do not count, nor do calls after this reading)
+      let lastCall := (calls.filterMap fun ((c', k') : Cmd × Nat) =>
+        match c' with
+        | .metrics .. => none
+        | _ => if k' ≤ k then some ((iters.toArray[k']?.map (·.now)).getD 0) else none).foldl max 0
       if openBrowse || !allOver then none
       else
         let m (key : String) := metricOf toks key
